@@ -412,6 +412,11 @@ class Machine:
                 op3 = s.byte(p); p += 1
                 if op3 in (0xDC, 0xDE):
                     reg, m = modrm(); src = list(s.xmm[m[1]]) if m[0] == 'reg' else s.load(ea(m), 16); dst = s.xmm[reg]
+                    if all(is_c(x) for x in list(dst) + list(src)):      # concrete mode (model validation): FIPS-197 round from spec/aes_ref
+                        from spec import aes_ref
+                        tb = lambda v: list((v[0] | (v[1] << 64)).to_bytes(16, 'little'))
+                        o = int.from_bytes(bytes((aes_ref.aesenc if op3 == 0xDC else aes_ref.aesdec)(tb(dst), tb(src))), 'little')
+                        s.xmm[reg] = [o & ((1 << 64) - 1), o >> 64]; s.written_xmm.add(reg); return done()
                     f = AESENC if op3 == 0xDC else AESDEC
                     r_ = f(z3.Concat(bv(dst[1], 64), bv(dst[0], 64)), z3.Concat(bv(src[1], 64), bv(src[0], 64)))
                     s.xmm[reg] = [z3.Extract(63, 0, r_), z3.Extract(127, 64, r_)]; s.written_xmm.add(reg); return done()
